@@ -4,22 +4,25 @@
 (* files, two of them sharing a home slot, in a 4-slot table; two absent names, one colliding with a   *)
 (* present name; sector size 4 (or, in the "limits" configuration, 4096 so that the 1000:1 region of   *)
 (* the codec layer is reachable).                                                                      *)
-EXTENDS MpqBuild
+EXTENDS MpqBuild, MpqBuildNames, IOUtils
 
 Alphabet == {97, 65, 66, 98, 47, 92, 120, 88, 46}
 NameU == {<<c1, c2>> : c1 \in Alphabet, c2 \in Alphabet}
-NHTable == [nm \in NameU |-> NameHashDef(nm)]
-FKTable == [nm \in NameU |-> LibFileKeyDef(nm)]
-MCNameHash(nm) == NHTable[nm]
-MCFileKey(nm)  == FKTable[nm]
+\* literal tables (module MpqBuildNames), re-derived from the MpqCrypto reference by MC_MpqBuildHash
+MCNameHash(nm) == LitNameHash(nm)
+MCFileKey(nm)  == LitFileKey(nm)
+NHTable == [nm \in NameU |-> LitNameHash(nm)]      \* (used by the ASSUMEs only)
+FKTable == [nm \in NameU |-> LitFileKey(nm)]
 
-SameName(n1, n2) == NHTable[n1].a = NHTable[n2].a /\ NHTable[n1].b = NHTable[n2].b
+SameName(n1, n2) == LitNameHash(n1).a = LitNameHash(n2).a /\ LitNameHash(n1).b = LitNameHash(n2).b
 N1 == <<97, 47>>        \* "a/"
 N2 == <<66, 120>>       \* "Bx"
 Others == {nm \in NameU : ~SameName(nm, N1) /\ ~SameName(nm, N2)}
-N3 == CHOOSE nm \in Others : NHTable[nm].home = NHTable[N1].home
-A1 == CHOOSE nm \in Others : NHTable[nm].home = NHTable[N1].home /\ ~SameName(nm, N3)
-A2 == CHOOSE nm \in Others : NHTable[nm].home # NHTable[N1].home /\ ~SameName(nm, N3)
+\* literal (found by TLC with CHOOSE over Others; the conditions are ASSUMEd below)
+N3 == <<65, 46>>        \* "A.": shares the home slot of N1
+A1 == <<65, 65>>        \* "AA": absent, shares the home slot of N1 and N3
+A2 == <<46, 46>>        \* "..": absent, other home slot
+ASSUME {N3, A1, A2} \subseteq Others /\ ~SameName(A1, N3) /\ ~SameName(A2, N3) /\ NHTable[A2].home # NHTable[N1].home
 AbsentNames == {A1, A2}
 ASSUME NHTable[N3].home = NHTable[N1].home /\ NHTable[A1].home = NHTable[N1].home
 \* the fold law the spellings rely on (MpqCrypto, also checked for all printable pairs in MC_MpqCrypto)
@@ -27,8 +30,10 @@ ASSUME \A nm \in NameU : \A sp \in Spellings : SameName(nm, Spell(nm, sp)) /\ FK
                                                /\ NHTable[Spell(nm, sp)].home = NHTable[nm].home
 
 Small == SectorSize = 4
-MCLens == IF Small THEN {0, 1, 3, 4, 5, 8, 9, 13} ELSE {SectorSize, SectorSize + 1, 2 * SectorSize + 200}
-MCMethods == {0, ZLIB, SPARSE, PKWARE, ADPCM_STEREO + BZIP2}
+\* (the quick tier drops two of the lengths; VERIF_TIER is set by vcheck)
+QuickTier == "VERIF_TIER" \in DOMAIN IOEnv /\ IOEnv.VERIF_TIER = "quick"
+MCLens == IF Small THEN (IF QuickTier THEN {0, 3, 4, 5, 9, 13} ELSE {0, 1, 3, 4, 5, 8, 9, 13}) ELSE {SectorSize, SectorSize + 1, 2 * SectorSize + 200}
+MCMethods == {0, ZLIB, SPARSE, PKWARE, ADPCM_STEREO, ADPCM_STEREO + BZIP2}
 F1Set == {[name |-> N1, len |-> n, cls |-> cl, method |-> m, enc |-> en] :
             n \in MCLens, cl \in {"run", "edge", "random"}, m \in MCMethods, en \in {"plain", "enc", "encfix"}}
 F2 == [name |-> N2, len |-> 5, cls |-> "run", method |-> ZLIB, enc |-> "encfix"]
@@ -36,16 +41,23 @@ F3 == [name |-> N3, len |-> 4, cls |-> "edge", method |-> ZLIB, enc |-> "enc"]
 Dup == [name |-> Spell(N2, "lower"), len |-> 1, cls |-> "run", method |-> 0, enc |-> "plain"]
 FileSeqs == {<<f1, F2, F3>> : f1 \in F1Set} \cup {<<F2, f1, F3>> : f1 \in F1Set} \cup {<<F2, Dup, F3>>}
 
-MCInit == BInitWith(FileSeqs)
-MCNext == \/ BuildFailCodec \/ WriteSingleUnit \/ WriteSector \/ FinishFile \/ AddHash
-          \/ \E i \in 1..3 : \E sp \in Spellings : ReadFile(i, sp)
-          \/ \E nm \in AbsentNames : \E sp \in Spellings : ReadAbsent(nm, sp)
+\* Vacuity guard without TLC's -coverage (its cost-model construction does not terminate in reasonable time on
+\* this module graph): every action reports itself once per worker through a TLC register.
+Mark(reg, name) == IF TLCGet(reg) = 0 THEN TLCSet(reg, 1) /\ PrintT(<<"ACTION", name>>) ELSE TRUE
+MCInit == BInitWith(FileSeqs) /\ \A reg \in 1..7 : TLCSet(reg, 0)
+MCNext == \/ BuildFailCodec /\ Mark(1, "BuildFailCodec")
+          \/ WriteSingleUnit /\ Mark(2, "WriteSingleUnit")
+          \/ WriteSector /\ Mark(3, "WriteSector")
+          \/ FinishFile /\ Mark(4, "FinishFile")
+          \/ AddHash /\ Mark(5, "AddHash")
+          \/ \E i \in 1..3 : \E sp \in Spellings : ReadFile(i, sp) /\ Mark(6, "ReadFile")
+          \/ \E nm \in AbsentNames : \E sp \in Spellings : ReadAbsent(nm, sp) /\ Mark(7, "ReadAbsent")
 
-\* reads are observations: once one has been made the behaviour ends (keeps the graph a tree of depth <= ~20)
-MCConstraint == TRUE
+\* Negative controls (cfg MC_MpqBuild_neg): invariants that MUST be violated on the as-is model -- they state the
+\* absence of the named deviations.  The check fails stage A if TLC does not find the counterexamples.
+NegNoFlagDeviation == \A j \in 1..Len(vblocks) : ~DevSectoredNoCompressFlag(vblocks[j])
+NegStrictReadBack  == vlast.kind = "file" => vlast.out = "exact"
+
+\* reads are observations: once one has been made the behaviour ends
 MCNextOnce == vlast = NoObs /\ MCNext
-
-\* the deviation is real on the as-is model: some reachable block has it (checked as a "never" that must FAIL is
-\* not expressible as an invariant; instead the fixed configuration shows it is absent there, and this one
-\* counts it)
 =============================================================================
